@@ -692,3 +692,6 @@ func (bd *Bounds) succLenParam(fn *ssa.Function, field int) (int, bool) {
 	}
 	return found, found >= 0
 }
+
+// Linear is the exported linear-form folding (base + constant offset).
+func (bd *Bounds) Linear(v ssa.Value, at ssa.Instruction) (ssa.Value, int64) { return bd.linear(v, at) }
